@@ -228,14 +228,35 @@ Record inst := {
 (* what is decided per instance:
    - the implementation rejects iff the reference construction leaves an entry unresolved, with the same conflicts;
    - otherwise its table is the reference LALR(1) table entry for entry and passes the safety check *)
+(* The states the driver can be in: those reached from state 0 through the table's own SHIFT and GOTO entries.  When a directive turns
+   the only SHIFT into a state into a REDUCE, that state stays in both tables with its entries but can no longer be entered; the entries
+   of such states are dropped on both sides before the comparison and the safety check (the driver never consults them). *)
+Definition succs (t : table) (s : N) : list N :=
+  fold_left (fun acc e => match snd e with Shift n => if fst (fst e) =? s then ins n acc else acc | _ => acc end) (t_action t)
+    (fold_left (fun acc e => if fst (fst e) =? s then ins (snd e) acc else acc) (t_goto t) []).
+Fixpoint reach (fuel : nat) (t : table) (seen todo : list N) : list N :=
+  match fuel with
+  | O => seen
+  | S f =>
+    match todo with
+    | [] => seen
+    | s :: rest =>
+      let new := filter (fun n => negb (memN n seen)) (succs t s) in
+      reach f t (union seen new) (rest ++ new)
+    end
+  end.
+Definition prune (t : table) : table :=
+  let r := reach 4000 t [0] [0] in
+  {| t_action := filter (fun e => memN (fst (fst e)) r) (t_action t);
+     t_goto := filter (fun e => memN (fst (fst e)) r) (t_goto t) |}.
 Definition inst_ok (i : inst) : bool :=
   let '(ref, confl) := lalr (i_G i) (i_start i) (i_eof i) (i_nnt i) (i_prec i) in
   if i_rejected i then
     negb (match confl with [] => true | _ => false end) && multiset_eqb (map sig_of confl) (i_conflicts i)
   else
     (match confl with [] => true | _ => false end)
-    && table_iso ref (i_T i) (i_eof i) (i_nnt i)
-    && safe_check (i_G i) (i_T i) (i_eof i) (i_err i) (i_start i) (i_past i).
+    && table_iso (prune ref) (prune (i_T i)) (i_eof i) (i_nnt i)
+    && safe_check (i_G i) (prune (i_T i)) (i_eof i) (i_err i) (i_start i) (i_past i).
 %s
 Definition insts : list inst := [%s].
 Definition M := Eval vm_compute in mismatches inst_ok 0 insts.
@@ -247,7 +268,7 @@ Print R.
 Definition exact_ok (i : inst) : bool :=
   match i_rules i with
   | None => true
-  | Some r => exact_check (i_G i) (i_T i) (i_eof i) (i_err i) (i_start i) (i_past i) r 60
+  | Some r => exact_check (i_G i) (prune (i_T i)) (i_eof i) (i_err i) (i_start i) (i_past i) r 60
   end.
 Definition X := Eval vm_compute in mismatches exact_ok 0 insts.
 Print X.
